@@ -88,7 +88,7 @@ def cases(tier: str, seed: int) -> list[dict]:
             dim_ = 2 if et in gm.ET_2D else 3
             kind_ = ["elastic", "thermal"][(j + r) % 2]
             out.append({"kind": kind_, "dim": dim_, "et": et, "law": laws[(j + r) % 4], "ps": bool(j % 2) and dim_ == 2, "mesh": "curved",
-                        "scale": [1.0, 1e-4, 1e3][(j + r) % 3]})
+                        "scale": [1.0, 1e-6, 1e3][(j + r) % 3]})
         for et in gm.ET_1D:
             out.append({"kind": "thermal", "dim": 1, "et": et, "mesh": "line"})
         # mixed element groups
